@@ -118,11 +118,16 @@ def build_lib(variant):
     lib = os.path.join(d, 'libzstd.a')
     with _Lock(os.path.join(BUILD, variant, '.lock')):
         if os.path.exists(lib):
+            try:
+                os.utime(d, None)
+            except OSError:
+                pass
             return d
-        # drop stale trees of this variant (disk)
-        for old in glob.glob(os.path.join(BUILD, variant, '*')):
-            if os.path.isdir(old) and old != d:
-                shutil.rmtree(old, ignore_errors=True)
+        # drop stale trees of this variant (disk): keep the 3 most recently used besides the one being built
+        olds = [o for o in glob.glob(os.path.join(BUILD, variant, '*')) if os.path.isdir(o) and o != d]
+        olds.sort(key=lambda o: os.path.getmtime(o), reverse=True)
+        for old in olds[int(os.environ.get('VERIF_KEEP_BUILDS', '3')):]:
+            shutil.rmtree(old, ignore_errors=True)
         od = os.path.join(d, 'obj')
         os.makedirs(od, exist_ok=True)
         defs = v.get('defs', COMMON_DEFS)
